@@ -29,8 +29,9 @@ def execute(file, cdb, data_out, data_in, max_sense_data_length=32, return_sense
         len(data_in)
     rec = {"ino": st.st_ino, "fd": fd, "mode": file.mode, "name": file.name}
     registry.sgio_calls.append(rec)
-    if data_out is not None and len(data_out) and "+" not in file.mode and "w" not in file.mode:
-        # the kernel refuses write-class commands through a descriptor opened read-only (sg: blk_verify_command -> EPERM)
+    if data_out is not None and len(data_out) and "+" not in file.mode and "w" not in file.mode and not getattr(registry, "privileged", False):
+        # the kernel refuses write-class commands of an unprivileged user through a descriptor opened read-only (sg: blk_verify_command
+        # -> EPERM; with CAP_SYS_RAWIO - registry.privileged - everything passes)
         raise OSError(1, "Operation not permitted")
     for hook in registry.sgio_hooks:
         hook(file, st, cdb, data_out, data_in)
